@@ -63,8 +63,50 @@ def prepare_overlay(job, tmp, replay=False):
     return d
 
 
-def run_gosym(job, harness, tier, tmp, ovdir, solver="z3"):
-    out = os.path.join(tmp, f"res_{job['name']}_{harness}_{solver}.json")
+def shards_of(job, harness):
+    for rx, n in job.get("shards", {}).items():
+        if re.search(rx, harness):
+            return n
+    return 1
+
+
+def merge_shards(parts):
+    """Merge the HarnessResult of several shards of one harness."""
+    base = parts[0]
+    if len(parts) == 1:
+        return base
+    for res in parts[1:]:
+        if res.get("error") and not base.get("error"):
+            base["error"] = res["error"]
+        if not res.get("harnesses"):
+            continue
+        if not base.get("harnesses"):
+            base["harnesses"] = res["harnesses"]
+            continue
+        a, b = base["harnesses"][0], res["harnesses"][0]
+        for k in ("paths", "paths_ok", "pruned", "panics", "unknown", "q_sat", "q_unsat", "solver_s", "decisions", "steps", "decided_by_domain_enumeration"):
+            a[k] = a.get(k, 0) + b.get(k, 0)
+        a["wall_s"] = max(a["wall_s"], b["wall_s"])
+        for k in ("asserts", "asserts_const", "reached", "unsupported"):
+            d = a.get(k) or {}
+            for kk, vv in (b.get(k) or {}).items():
+                d[kk] = d.get(kk, 0) + vv
+            a[k] = d
+        a["violations"] = (a.get("violations") or []) + (b.get("violations") or [])
+        a["engine_bugs"] = (a.get("engine_bugs") or []) + (b.get("engine_bugs") or [])
+        a["samples"] = ((a.get("samples") or []) + (b.get("samples") or []))[:4]
+        a["witnesses"] = (a.get("witnesses") or []) + (b.get("witnesses") or [])
+        a["functions"] = sorted(set((a.get("functions") or []) + (b.get("functions") or [])))
+        a["stubs"] = sorted(set((a.get("stubs") or []) + (b.get("stubs") or [])))
+        if not b["complete"]:
+            a["complete"] = False
+            a["incomplete_reason"] = (a.get("incomplete_reason") or "") + " | " + (b.get("incomplete_reason") or "")
+        base.setdefault("function_hashes", {}).update(res.get("function_hashes") or {})
+    return base
+
+
+def run_gosym(job, harness, tier, tmp, ovdir, solver="z3-new", shard=None):
+    out = os.path.join(tmp, f"res_{job['name']}_{harness}_{solver}_{shard[0] if shard else 0}.json")
     moddir = job.get("moddir", REPO)
     pkgdir = os.path.join(moddir, job["pkgdir"])
     lim = job.get("limits", {}).get(tier, {})
@@ -72,6 +114,8 @@ def run_gosym(job, harness, tier, tmp, ovdir, solver="z3"):
            "-harness", "^" + harness + "$", "-solver", solver, "-out", out,
            "-max-paths", str(lim.get("max_paths", 200000)), "-timeout", str(lim.get("timeout", 900 if tier == "quick" else 3600)),
            "-query-timeout", str(60000 if tier == "quick" else 300000), "-witness", str(job.get("witness", 4))]
+    if shard:
+        cmd += ["-shard", f"{shard[0]}/{shard[1]}"]
     t0 = time.time()
     r = subprocess.run(cmd, env=GOENV, capture_output=True, text=True)
     try:
@@ -177,9 +221,15 @@ def main():
             sys.exit(2)
         results = []
         with cf.ThreadPoolExecutor(max_workers=args.jobs) as ex:
-            futs = [ex.submit(run_gosym, job, h, tier, tmp, ov) for job, h, ov in tasks]
-            for f in futs:
-                results.append(f.result())
+            futs = []
+            for job, h, ov in tasks:
+                n = shards_of(job, h)
+                if n > 1:
+                    futs.append([ex.submit(run_gosym, job, h, tier, tmp, ov, "z3-new", (i, n)) for i in range(n)])
+                else:
+                    futs.append([ex.submit(run_gosym, job, h, tier, tmp, ov)])
+            for group in futs:
+                results.append(merge_shards([f.result() for f in group]))
         jobs_by_name = {j["name"]: j for j in jobs}
         # --- collect
         harness_res = []
@@ -244,8 +294,8 @@ def main():
         wit_total, wit_ok = 0, 0
         wcases_by_job = {}
         for h in harness_res:
-            for w in (h.get("witnesses") or []):
-                tag = f"{h['harness']}|wit{w['path']}"
+            for wi, w in enumerate(h.get("witnesses") or []):
+                tag = f"{h['harness']}|wit{wi}"
                 wcases_by_job.setdefault(h["_job"], []).append({"harness": h["harness"], "tag": tag, "model": w["model"], "_obs": w["observed"]})
         for jn, cases in wcases_by_job.items():
             job = jobs_by_name[jn]
@@ -336,7 +386,8 @@ def write_evidence(prop, tier, seed, P, harness_res, confirmed, mismatches, know
         "stubs": sorted(stubs),
         "bounds": P.get("bounds", {}).get(tier, P.get("bounds", {})),
         "queries": {"unsat": sum(h["q_unsat"] for h in harness_res), "sat": sum(h["q_sat"] for h in harness_res), "unknown": sum(h["unknown"] for h in harness_res)},
-        "solver_s": {"z3-4.8.12": round(sum(h["solver_s"] for h in harness_res), 2)},
+        "solver_s": {"z3-5.1.0": round(sum(h["solver_s"] for h in harness_res), 2)},
+        "branch_decisions_by_exact_byte_domains": sum(h.get("decided_by_domain_enumeration", 0) for h in harness_res),
         "paths": paths,
         "assertion_sites": sorted({a for h in harness_res for a in (h["asserts"] or {})})[:300],
         "counterexamples_replayed": len(confirmed) + len([m for m in mismatches if m["kind"] != "witness"]),
